@@ -311,6 +311,9 @@ pub struct World {
     pub step: u64,
     /// Description of the last operation (inputs + outcome summary), for witnesses.
     pub last_op: Value,
+    /// Successful decrease of the current step: (collateral is long token, output token != secondary
+    /// token, fee cost excluding funding as reported).
+    pub last_dec: Option<(bool, bool, BigInt)>,
     prev_idx: [T; 8],
     prev_bf: [T; 2],
 }
@@ -373,6 +376,7 @@ impl World {
             world_idx,
             step: 0,
             last_op: Value::Null,
+            last_dec: None,
             prev_idx: [0; 8],
             prev_bf: [0; 2],
         };
@@ -773,6 +777,11 @@ impl World {
                 }
 
                 // --- C08 ledger
+                self.last_dec = Some((
+                    pre.is_collateral_token_long,
+                    rep.is_output_token_long() != rep.is_secondary_output_token_long(),
+                    rep.fees().total_cost_excluding_funding().map(bi).unwrap_or_default(),
+                ));
                 let out_long = rep.is_output_token_long();
                 let sec_long = rep.is_secondary_output_token_long();
                 let fh = rep.claimable_collateral_for_holding();
